@@ -27,4 +27,8 @@ NodesABV == {NodeT("A", <<>>), NodeT("B", <<>>), NodeT("V", <<>>)}
 NodesAB  == {NodeT("A", <<>>), NodeT("B", <<>>)}
 SymDotEq == {".", "="}
 LibsAll  == LibIds
+LibIdx(nm) == CHOOSE i \in LibIds : AllLibs[i].name = nm
+LibsRingVirtual == {LibIdx("plain"), LibIdx("cgplain"), LibIdx("squashmix")}
+NodesAV  == {NodeT("A", <<>>), NodeT("V", <<>>)}
+SymDot   == {"."}
 =============================================================================
